@@ -129,7 +129,27 @@ func runC16(r *run) {
 		if local {
 			fl |= slog.LlocalTime
 		}
-		slog.SetFlags(fl)
+		// the same flag word reached through different API paths (the state at the time of the call is identical)
+		switch g.intn(4) {
+		case 0:
+			slog.SetFlags(fl)
+		case 1:
+			slog.SetFlags(fl)
+			// enter and leave a scope that changes the date/time/zone bits
+			restore := slog.SaveFlagsAndMod(^fl&(slog.Ldatetimeflags|slog.LlocalTime), fl&(slog.Ldatetimeflags|slog.LlocalTime))
+			restore()
+		case 2:
+			slog.ResetFlags()
+			slog.RemoveFlags(slog.GetFlags())
+			slog.AddFlags(fl)
+		default:
+			slog.SetFlags(^fl)
+			slog.RemoveFlags(^fl)
+			slog.AddFlags(fl)
+		}
+		if slog.GetFlags() != fl {
+			r.violate(violation{What: "harness: the flag word was not reached", Input: fmt.Sprint(int64(fl)), Actual: fmt.Sprint(int64(slog.GetFlags()))})
+		}
 		// the instant
 		year := g.intn(10000)
 		if g.chance(1, 5) {
